@@ -40,10 +40,11 @@ CLAIMS = {
     "C06": ("Theorems over the regenerated constants: documented 32-bit layout, 64-bit layout, saturation at exactly 2^14-1 on both widths, totality of unboxing (never a crash), tag table; "
             "the constants are re-translated from core/src/read.rs on every run; box/unbox compared with the real crate on all boundary lengths x pointers, decision-relevant prefix/tag patterns, random doubles and raw patterns.",
             TB, "Lean 4 theorems over translated constants (decide +kernel) + differential correspondence", "§4 C06"),
-    "C07": ("Theorems over a model of TrampolineCodegen::new/apply driven by the tables regenerated from trampoline/src/lib.rs: no own memory => returned unchanged; more than one own memory, an unknown API-namespace name, another API version => rejected; "
+    "C07": ("Theorems over a model of TrampolineCodegen::new/apply (Model/Tramp.lean: stepOne per IMPORTS entry, every occurrence of an import handled) driven by the tables regenerated from trampoline/src/lib.rs: no own memory => returned unchanged; more than one own memory, an unknown API-namespace name, another API version => rejected; "
+            "C07_reject_bad_signature (a string-carrying function import whose signature is not the expected one is rejected wherever it stands, whatever else is imported, also as a second import of the same name); C07_idempotent (the import section the tool produces is accepted and left exactly as it is by a second application — uses table facts discharged by the kernel on the regenerated tables: no new name is an original name, helper names are known and never original names); "
             "an accepted module keeps exactly one own memory, keeps namespace and kind of every import it keeps, and everything added is imported from the provider namespace; the emitted family has memory 0 = imported provider memory, memory 1 = guest's own. "
-            "Accept / reject class / resulting import set compared with the real tool on generated modules and all single-defect variants (no memory, two memories, unknown name, other version, wrong signature x5, foreign same name, foreign memory); outputs validated, re-trampolined (idempotence) and executed next to the original in wasmtime (own exports, data, start, globals, memory).",
-            TB + "Preservation of the guest's own behaviour depends on walrus' re-emission: validated by differential execution, not proved (partial). Wrong-signature refusal and idempotence are checked by correspondence only.",
+            "Accept / reject class / resulting import multiset compared with the real tool on generated modules and all single-defect variants (no memory, two memories, unknown name, other version, wrong signature x5, foreign same name, foreign memory, the same function imported twice, twice with another signature, a non-function import carrying an API name); outputs validated, re-trampolined (byte-level idempotence) and executed next to the original in wasmtime (own exports, data, start, globals, memory).",
+            TB + "Preservation of the guest's own behaviour depends on walrus' re-emission: validated by differential execution, not proved (partial). Idempotence is proved for the decision and the import section; byte-for-byte equality of the second output is checked by correspondence.",
             "Lean 4 theorems over a model of the acceptance logic + differential runs of the real tool (wasmparser validation, wasmtime execution)", "§4 C07"),
     "C08": ("Theorem C08_every_history_arbitrary_bytes: for EVERY byte string (no hypothesis on the input) and EVERY finite sequence of read calls on handles the client was given, the model of read.rs + lazy_value_ref.rs answers exactly Spec.run — the sequential header walk, which says ReadError wherever it cannot decode (truncation, unsupported marker, non-string key, unreadable value header, NaN). "
             "Built on the error direction of the reader refinement: finish_fail (when the eager walk cannot decode the rest of a value, finish_processing reports an error and leaves a correct partial view), arrGet_fail / objGet_fail / objProp_err, the total node-level theorems getAtIndex_arr_tot / getAtIndex_obj_tot / getProp_tot, and the handle / context lifting shared with C01. "
